@@ -4,7 +4,7 @@ import engine as E
 from props import hdrgen
 
 PROP = 'C13'
-MODULES = ['ZckModel.Props.C13']
+MODULES = ['ZckModel.Props.C13', 'ZckModel.Props.C13Parse']
 ASSUMPTIONS = [
     "header shorter than 2^31 bytes (read_index keeps the remaining header length in an int)",
     "bytes 23..24 of a file whose lead is shorter than the 25 bytes read_lead always reads stay in the buffer across "
